@@ -16,13 +16,21 @@ oracle follows them, nothing stricter):
     in adjacency as the same value").
   * unshared vertex: the vertex at the single position of the face not equal to either edge
     end, -1 when there is no such single position.
-  * watertight: every sorted edge occurs exactly twice;  winding: for each edge occurring
-    exactly twice the two directed copies are opposite.
+  * watertight ("every edge is included in two faces"): every sorted edge occurs exactly twice
+    AND its two occurrences belong to two different faces.  winding: for each edge occurring
+    exactly twice the two directed copies are opposite; an edge with 3+ occurrences makes the mesh
+    inconsistent once one direction is used at least two times more often than the other (every
+    convention that looks at the edge agrees there); a balanced edge of 3+ faces is not judged.
+  * body count: connected groups of the vertices THE FACES USE (the statement counts on the
+    faces, over any vertex count: a vertex no face refers to is not a body).
   * a loop edge (a, a) of a face with a repeated index makes `a` its own neighbour; the
     statement does not say so either way, so membership of v in its own neighbour list is only
     required to be *justified* by a loop edge, never demanded.
-  * degree / number of vertex_faces slots of a vertex touched by a face with repeated indices
-    may be per face or per occurrence; incident faces are compared as sets.
+  * degree = "the number of faces each vertex is included in", vertex_faces = "the face indices
+    that correspond to each vertex": a face that repeats the vertex counts / is listed ONCE.
+  * split(only_watertight=False) with no other argument returns the faces of the mesh, component
+    by component: nothing discarded, nothing added ("If only_watertight is true it ... will
+    attempt to repair single triangle or quad holes").
 """
 
 from __future__ import annotations
@@ -40,7 +48,8 @@ RULE = (
     "every (n,3) face array over 4 vertices with n<=2 (4160 arrays, complete in both tiers), n=3 "
     "over 4 vertices (sampled in quick; enumerated in shards in thorough as far as the budget "
     "reaches), sampled arrays over 5 vertices with 2-4 faces, generated closed integer meshes "
-    "(single / multi body; each also with 1-3 unreferenced vertices inserted into the vertex array), random soups up to 200 faces with injected duplicate / reversed / "
+    "(single / multi body; each also with 1-3 unreferenced vertices inserted into the vertex array, with a "
+    "zero-area cap face closing a T-junction, and in an embedding with two needle faces), random soups up to 200 faces with injected duplicate / reversed / "
     "degenerate faces and unreferenced vertices, fans, bow-tie, Moebius strip, open grid, and soups "
     "relabelled onto vertex ids around 2^15, 2^20, 2^31, 2^32 (free functions only). One case = one "
     "(vertex count, face array); distinct = distinct (class tag, vertex count, face bytes); trivial "
@@ -81,11 +90,15 @@ ASSUMPTIONS = [
     "directed edges, self-pairs dropped",
     "facets: the coplanarity predicate is taken from mesh.face_adjacency_radius / span (judged elsewhere); "
     "only the grouping of the selected adjacency rows is judged here",
-    "angle defects: integer-coordinate closed meshes (edges >= 1, angles far above tol.merge), with and "
-    "without unreferenced vertices in the vertex array, float tolerance 1e-6 on the sum; the value reported "
-    "for one unreferenced vertex is not judged (only the sum is), and embeddings that are degenerate at the "
-    "library's documented resolution (edge lengths below util.TOL_ZERO = 1e-13, angles below tol.merge = 1e-8) are not judged: "
-    "the statement quantifies over face arrays, not over coordinates",
+    "angle defects: closed meshes with integer coordinates, with and without unreferenced vertices, plus two "
+    "embeddings in which every angle still exists: a zero-area cap face on a T-junction (angles 0, 0, pi; all "
+    "edges of normal length) and two needle faces (sharp angle 1e-10 .. 1e-11 of a radian, mesh scaled by 1 / 1e3 / "
+    "1e6, every face cross product >= 100x tol.zero); float tolerance 1e-6 on the sum and per referenced vertex; "
+    "the value reported for one unreferenced vertex is not judged (only the sum is). Meshes whose faces are below "
+    "the library's documented resolution (edge cross product below tol.zero = 1e-13, i.e. all edges below ~3e-7) "
+    "are not generated (lead's ruling, DESIGN 7.4: same limit as C01 / C18)",
+    "winding consistency on an edge of 3+ faces whose two directions balance (differ by at most one) is not judged: "
+    "the statement does not fix the convention there",
 ]
 EXHAUSTIVE = {"quick": False, "thorough": False}
 
@@ -152,20 +165,49 @@ class Ref:
         self.occ = occ
         self.unique = set(occ)
         self.adj = []  # (fa, fb, e0, e1, ua, ub)
-        self.winding = True
+        pairs_opposite = True
+        self.self_paired = False  # an edge whose two occurrences come from ONE face (a, a, b)
         for e, ks in occ.items():
             if len(ks) != 2:
                 continue
             a, b = self.edges[ks[0]], self.edges[ks[1]]
             if not (a[0] == b[1] and a[1] == b[0]):
-                self.winding = False
+                pairs_opposite = False
             fa, fb = self.edges_face[ks[0]], self.edges_face[ks[1]]
             if fa == fb:
+                if e[0] != e[1]:
+                    self.self_paired = True
                 continue
             if fa > fb:
                 fa, fb = fb, fa
             self.adj.append((fa, fb, e[0], e[1], _unshared(F[fa], e), _unshared(F[fb], e)))
-        self.watertight = all(len(ks) == 2 for ks in occ.values())
+        # watertight: "every edge is included in two faces" - every sorted edge occurs exactly
+        # twice AND the two occurrences belong to two different faces.  (A face (a, a, b) carries
+        # the edge (a, b) twice by itself: that edge is included in ONE face.)
+        self.watertight_slots = all(len(ks) == 2 for ks in occ.values())
+        self.watertight = self.watertight_slots and not self.self_paired
+        # winding: three-valued.  Edges with one or two occurrences: the pair has to be opposite
+        # (the library's documented rule).  An edge with three or more occurrences: the statement
+        # does not say which of the usual conventions holds (every directed edge at most once /
+        # the two directions balance), but EVERY convention that looks at the edge says
+        # "inconsistent" once one direction is used at least two times more often than the other
+        # (two of the faces that run the same way cannot be matched with an opposite one).  That
+        # is judged; a balanced edge of 3+ faces is not (None).
+        self.multi_edge = self.unbalanced = False
+        for e, ks in occ.items():
+            if len(ks) < 3 or e[0] == e[1]:
+                continue
+            self.multi_edge = True
+            fwd = sum(1 for k in ks if self.edges[k][0] < self.edges[k][1])
+            if abs(fwd - (len(ks) - fwd)) >= 2:
+                self.unbalanced = True
+        self.winding_pairs = pairs_opposite
+        if not pairs_opposite or self.unbalanced:
+            self.winding = False
+        elif self.multi_edge:
+            self.winding = None
+        else:
+            self.winding = True
         self.referenced = set(v for f in F for v in f)
         self.euler = len(self.referenced) - len(self.unique) + n
         # neighbours / incidence (small vertex counts only: dense lists)
@@ -203,11 +245,13 @@ class Ref:
             uf.union(a[0], a[1])
         return uf.groups()
 
-    def vertex_component_count(self):
+    def body_count(self):
+        """Connected groups of the vertices the faces use (counted on the faces: a vertex that
+        no face refers to is not part of any body)."""
         uf = UF(self.nv)
         for a, b in self.unique:
             uf.union(a, b)
-        return len(uf.groups())
+        return len(set(uf.find(v) for v in self.referenced))
 
 
 # --------------------------------------------------------------------------- observation
@@ -259,13 +303,13 @@ class Judge:
         self.V = None
 
     # quantities whose definition does not depend on faces with repeated indices: no deg= field
-    NODEG = ("connected_components", "connected_component_labels", "split", "facets", "vertex_defects")
+    NODEG = ("connected_components", "connected_component_labels", "split", "facets", "vertex_defects", "body_count")
 
-    def bad(self, q, route, sym, what, opt=None, **extra):
+    def bad(self, q, route, sym, what, opt=None, nodeg=False, **extra):
         key = "q=%s route=%s" % (q, route)
         if opt:
             key += " opt=%s" % opt
-        if q not in self.NODEG:
+        if q not in self.NODEG and not nodeg:
             key += " deg=%d" % (1 if self.deg else 0)
         key += " sym=%s" % sym
         case = {"tag": self.tag, "nv": self.nv, "faces": np.asarray(self.F).tolist(), "q": q, "route": route}
@@ -282,6 +326,26 @@ class Judge:
             self.bad(q, route, "raises_AssertionError", "%s raised AssertionError: %s" % (q, e))
         except Exception as e:  # noqa
             self.bad(q, route, "raises_" + type(e).__name__, "%s raised %s: %s" % (q, type(e).__name__, e))
+
+
+def judge_flags(J, R, route, w, c):
+    """Watertight / winding flags of one route against the counting oracle."""
+    if bool(w) != R.watertight:
+        if bool(w) and R.watertight_slots and R.self_paired:
+            J.bad("is_watertight", route, "True_with_an_edge_paired_inside_one_face",
+                  "watertight although an edge belongs to ONE face (a face that repeats a vertex carries it twice)",
+                  got=bool(w), want=R.watertight)
+        else:
+            J.bad("is_watertight", route, "mismatch", "watertight flag differs from counting", got=bool(w), want=R.watertight)
+    if R.winding is None:
+        J.run.count("winding_not_judged_balanced_edge_of_3+_faces")
+    elif bool(c) != R.winding:
+        if bool(c) and R.winding_pairs and R.unbalanced:
+            J.bad("is_winding_consistent", route, "True_with_faces_running_the_same_way",
+                  "consistent although an edge of 3+ faces is traversed at least twice more often one way than the other",
+                  opt="edge_with_3+_faces", nodeg=True, got=bool(c), want=False)
+        else:
+            J.bad("is_winding_consistent", route, "mismatch", "winding flag differs from counting", got=bool(c), want=R.winding)
 
 
 def check_free_edges(J, R, F):
@@ -319,10 +383,7 @@ def check_free_edges(J, R, F):
         w, c = graph.is_watertight(E)
         w2, c2 = graph.is_watertight(E, edges_sorted=np.sort(E, axis=1))
         for route, ww, cc in (("free", w, c), ("free_sorted", w2, c2)):
-            if bool(ww) != R.watertight:
-                J.bad("is_watertight", route, "mismatch", "graph.is_watertight watertight flag wrong", got=bool(ww), want=R.watertight)
-            if bool(cc) != R.winding:
-                J.bad("is_winding_consistent", route, "mismatch", "graph.is_watertight winding flag wrong", got=bool(cc), want=R.winding)
+            judge_flags(J, R, route, ww, cc)
 
     J.guard("is_watertight", "free", wt)
     run.count("free_edge_checks")
@@ -401,7 +462,7 @@ def check_components(J, R, adjacency, nF):
     return comps
 
 
-def check_mesh(run, tag, F, nv, V=None, closed=False, facets=False, split_default=False):
+def check_mesh(run, tag, F, nv, V=None, closed=False, facets=False, split_default=False, geom=None):
     """All Trimesh properties + mesh-taking free functions on one (nv, F)."""
     import trimesh
     from trimesh import curvature, geometry, graph
@@ -520,15 +581,25 @@ def check_mesh(run, tag, F, nv, V=None, closed=False, facets=False, split_defaul
         vf = np.asarray(m.vertex_faces)
         run.state("vertex_faces_path", "loop_fallback" if tap.fallback > before else "sparse")
         vf2 = geometry.vertex_face_indices(nv, F, geometry.index_sparse(nv, F))
-        for route, arr in (("property", vf), ("free", np.asarray(vf2))):
+        routes = [("property", vf), ("free", np.asarray(vf2))]
+        if R.degenerate_faces or h0 % 4 == 0:
+            # the documented slow loop, entered on purpose (no sparse matrix to multiply with): it
+            # has to give the same rows whether or not the sparse path copes with the input
+            routes.append(("free_loop", np.asarray(geometry.vertex_face_indices(nv, F, None))))
+            run.count("vertex_faces_loop_forced")
+        for route, arr in routes:
             if arr.ndim != 2 or arr.shape[0] != nv:
                 J.bad("vertex_faces", route, "shape", "one row per vertex expected", shape=list(arr.shape))
                 continue
             for v in range(nv):
                 row = [int(x) for x in arr[v] if x != -1]
                 want = R.inc.get(v, set())
-                exact = v not in R.deg_vertices
-                if set(row) != want or (exact and len(row) != len(want)) or len(row) not in (len(want), R.occurrences.get(v, 0)):
+                if set(row) == want and len(row) != len(want) and sorted(row) == sorted(
+                        i for i in want for _ in range(R.F[i].count(v))):
+                    J.bad("vertex_faces", route, "face_listed_once_per_corner",
+                          "a face that repeats the vertex is listed once per corner", vertex=v, got=row, want=sorted(want))
+                    break
+                if set(row) != want or len(row) != len(want):
                     J.bad("vertex_faces", route, "mismatch", "incident faces differ from counting", vertex=v, got=row,
                           want=sorted(want))
                     break
@@ -538,9 +609,10 @@ def check_mesh(run, tag, F, nv, V=None, closed=False, facets=False, split_defaul
         else:
             for v in range(nv):
                 per_face, per_occ = len(R.inc.get(v, ())), R.occurrences.get(v, 0)
-                if d[v] != per_face and d[v] != per_occ:
-                    J.bad("vertex_degree", "property", "mismatch", "degree is neither faces nor occurrences", vertex=v,
-                          got=d[v], want=[per_face, per_occ])
+                if d[v] != per_face:
+                    # "the number of faces each vertex is included in": a face counts once
+                    J.bad("vertex_degree", "property", "face_counted_once_per_corner" if d[v] == per_occ else "mismatch",
+                          "degree is not the number of faces that contain the vertex", vertex=v, got=d[v], want=per_face)
                     break
 
     groups.append(("vertex_faces", "property", incidence))
@@ -549,14 +621,16 @@ def check_mesh(run, tag, F, nv, V=None, closed=False, facets=False, split_defaul
     def scalars():
         if m.euler_number != R.euler:
             J.bad("euler_number", "property", "mismatch", "Euler number != V_ref - E_unique + F", got=int(m.euler_number), want=R.euler)
-        if bool(m.is_watertight) != R.watertight:
-            J.bad("is_watertight", "property", "mismatch", "Trimesh.is_watertight wrong", got=bool(m.is_watertight), want=R.watertight)
-        if bool(m.is_winding_consistent) != R.winding:
-            J.bad("is_winding_consistent", "property", "mismatch", "Trimesh.is_winding_consistent wrong",
-                  got=bool(m.is_winding_consistent), want=R.winding)
-        bc = R.vertex_component_count()
+        judge_flags(J, R, "property", m.is_watertight, m.is_winding_consistent)
+        bc, unref = R.body_count(), nv - len(R.referenced)
         if int(m.body_count) != bc:
-            J.bad("body_count", "property", "mismatch", "body_count != vertex components by union-find", got=int(m.body_count), want=bc)
+            if unref and int(m.body_count) == bc + unref:
+                J.bad("body_count", "property", "one_body_per_unreferenced_vertex",
+                      "body_count counts every vertex that no face uses as a body", opt="unreferenced_vertices",
+                      got=int(m.body_count), want=bc)
+            else:
+                J.bad("body_count", "property", "mismatch", "body_count != connected groups of the vertices the faces use",
+                      got=int(m.body_count), want=bc)
 
     groups.append(("scalars", "property", scalars))
 
@@ -600,6 +674,35 @@ def check_mesh(run, tag, F, nv, V=None, closed=False, facets=False, split_defaul
         if got != want:
             J.bad("split", route, "mismatch", "split(only_watertight=False) components differ from union-find", got=got, want=want)
 
+    def split_plain():
+        # the call a user writes: no `repair`, no engine.  "only_watertight: Only return watertight
+        # meshes and discard remainder" / "If only_watertight is true it ... will attempt to repair
+        # single triangle or quad holes": with only_watertight=False the components are the faces
+        # of the mesh, nothing discarded and nothing added
+        parts = m.split(only_watertight=False)
+        want = sorted(sorted(R.F[i] for i in c) for c in comps)
+        lookup = {tuple(p): i for i, p in enumerate(V.tolist())}
+        got = []
+        for p in parts:
+            ids = [lookup.get(tuple(x), -1) for x in np.asarray(p.vertices).tolist()]
+            got.append(sorted(tuple(ids[j] for j in f) for f in np.asarray(p.faces).tolist()))
+        got.sort()
+        run.count("split_plain_checks")
+        if got != want:
+            # every face of the mesh is still there (as a multiset) and some more came with them
+            from collections import Counter
+
+            have = Counter(tuple(sorted(f)) for f in R.F)
+            seen = Counter(tuple(sorted(f)) for g in got for f in g)
+            alien = sorted((seen - have).elements())
+            if alien and not (have - seen):
+                J.bad("split", "default_kwargs", "components_hold_faces_the_mesh_does_not_have",
+                      "split(only_watertight=False) returned triangles that are not faces of the mesh",
+                      opt="only_watertight=False", got=got, want=want, added=alien)
+            else:
+                J.bad("split", "default_kwargs", "mismatch", "split(only_watertight=False) components differ from union-find",
+                      opt="only_watertight=False", got=got, want=want)
+
     distinct_coords = len(set(map(tuple, V.tolist()))) == len(V)
     if distinct_coords:
         # small enumerated arrays alternate the engine (both see every class), the rest use both
@@ -608,6 +711,9 @@ def check_mesh(run, tag, F, nv, V=None, closed=False, facets=False, split_defaul
             engines = (engines[int(F.sum()) % 2],)
         for engine in engines:
             J.guard("split", "engine=%s" % engine, lambda engine=engine: split(engine))
+        if n and (int(F.sum()) % 3 == 0 if tag.startswith(("exh_", "sample_")) else
+                  (h0 % 2 == 0 or not tag.startswith("soup_"))):
+            J.guard("split", "default_kwargs", split_plain)
     if split_default and distinct_coords:
         def split_wt():
             parts = m.split()
@@ -663,7 +769,7 @@ def check_mesh(run, tag, F, nv, V=None, closed=False, facets=False, split_defaul
             # unreferenced vertex, so the per-vertex comparison covers referenced vertices only;
             # whatever the unreferenced ones report must leave the sum alone.
             unref = [v for v in range(nv) if v not in R.referenced]
-            opt = "unreferenced_vertices" if unref else None
+            opt = "+".join(x for x in (geom, "unreferenced_vertices" if unref else None) if x) or None
             tol_sum = 1e-6 * max(1, nv)
             for route, arr in (("property", d), ("free", d2)):
                 if arr.shape != (nv,):
@@ -681,6 +787,8 @@ def check_mesh(run, tag, F, nv, V=None, closed=False, facets=False, split_defaul
                           opt=opt)
             if unref:
                 run.count("defect_checks_with_unreferenced_vertices")
+            if geom:
+                run.count("defect_checks_with_" + geom)
             run.count("defect_checks")
 
         J.guard("vertex_defects", "property", defects)
@@ -758,6 +866,47 @@ def with_unreferenced(rng, V, F):
     return Vn, keep[F]
 
 
+def with_cap(rng, V, F):
+    """
+    The closed surface with a T-junction closed by a zero-area face (what CAD tessellators emit):
+    an edge (a, b) is split at a point m on the side of ONE of its two faces, (a, b, c) becomes
+    (a, m, c) + (m, b, c), and the gap is closed with the triangle (a, b, m).  Still closed,
+    manifold and consistently wound by counting; the cap has the angles (0, 0, pi); every edge
+    is as long as in the source mesh or a binary fraction of it (nothing is small).
+    """
+    V = np.asarray(V, dtype=np.float64)
+    F = np.asarray(F, dtype=np.int64)
+    k = int(rng.integers(len(F)))
+    r = int(rng.integers(3))
+    a, b, c = (int(F[k][(r + i) % 3]) for i in range(3))
+    t = (0.5, 0.25, 0.75, 0.125)[int(rng.integers(4))]
+    m = len(V)
+    Vn = np.vstack([V, V[a] + t * (V[b] - V[a])])
+    Fn = np.vstack([np.delete(F, k, axis=0), [[a, m, c], [m, b, c], [a, b, m]]])
+    return Vn, Fn
+
+
+def with_needle(rng, V, F):
+    """
+    The closed surface (same faces) in an embedding where one edge (a, b) is 1e-10 .. 1e-11 of its
+    length: the two faces on it are needles whose sharp angle is >= 10x below 1e-8 rad.  The whole
+    mesh is scaled by 1, 1e3 or 1e6, so in two of three cases no two vertices are closer than
+    1e-8 either; the cross product of every face stays >= 100x above tol.zero (nothing is at the
+    resolution limit of the library, see notes "Round 4").
+    """
+    V = np.asarray(V, dtype=np.float64).copy()
+    F = np.asarray(F, dtype=np.int64)
+    k = int(rng.integers(len(F)))
+    r = int(rng.integers(3))
+    a, b = int(F[k][r]), int(F[k][(r + 1) % 3])
+    V *= (1.0, 1e3, 1e6)[int(rng.integers(3))]
+    V[b] = V[a] + (1e-10, 1e-11)[int(rng.integers(2))] * (V[b] - V[a])
+    return V, F
+
+
+_GEOM = {"closed:+cap:": "zero_area_cap_face", "closed:+needle:": "needle_face"}
+
+
 def structured(run):
     rng = run.rng
     n_closed = 10 if run.tier == "quick" else 40
@@ -779,6 +928,13 @@ def structured(run):
         Vu, Fu = with_unreferenced(rng, V, F)
         check_mesh(run, "closed:+unreferenced:" + tag, Fu, len(Vu), V=Vu, closed=True, facets=True, split_default=True)
         run.count("closed_meshes_with_unreferenced_vertices")
+        # closed manifold meshes hold for ANY embedding in which the angles exist: a zero-area cap
+        # face on a T-junction, and two needle faces (statement: "On closed manifold meshes the
+        # vertex angle defects sum to 2*pi times the Euler number")
+        Vc, Fc = with_cap(rng, V, F)
+        check_mesh(run, "closed:+cap:" + tag, Fc, len(Vc), V=Vc, closed=True, split_default=True, geom="zero_area_cap_face")
+        Vn, Fn = with_needle(rng, V, F)
+        check_mesh(run, "closed:+needle:" + tag, Fn, len(Vn), V=Vn, closed=True, split_default=True, geom="needle_face")
         if run.out_of_time(0.25):
             break
     # closed bodies that touch without sharing a face: glued at ONE vertex (vertex-connected,
@@ -920,5 +1076,6 @@ def replay(run, case):
     else:
         tag = case.get("tag", "replay")
         V = np.array(case["vertices"], dtype=np.float64) if case.get("vertices") else None
-        check_mesh(run, tag, F, int(case["nv"]), V=V, closed=tag.startswith("closed:"), facets=True,
-                   split_default=tag.startswith("closed:"))
+        geom = next((g for pre, g in _GEOM.items() if tag.startswith(pre)), None)
+        check_mesh(run, tag, F, int(case["nv"]), V=V, closed=tag.startswith("closed:"), facets=geom is None,
+                   split_default=tag.startswith("closed:"), geom=geom)
